@@ -90,7 +90,7 @@ class Driver:
             for i in vecs:
                 ev.append(("V_storage_of", i))          # Vector(v.cols()): a new vector over v's own storage tuple (public API)
             for t in tabs:
-                for c in range(min(len(sl[t].obj._underlying), 2)):
+                for c in range(min(len(sl[t].obj._underlying), 3)):
                     ev.append(("V_storage_of_col", t, c))
             for i in vecs:
                 for j in vecs:
@@ -131,7 +131,7 @@ class Driver:
                        "w_badidx", "w_badlen", "w_badtype"):
                 ev.append((op, i))
         for t in tabs:
-            for op in ("tw_cell", "tw_row", "tw_col", "tw_colscalar", "t_setattr_list", "t_rename", "t_renames",
+            for op in ("tw_cell", "tw_row", "tw_col", "tw_colscalar", "tw_tailcols", "tw_tailscalar", "t_setattr_list", "t_rename", "t_renames",
                        "t_setattr_badlen", "tw_badrow", "tw_badcol", "t_rename_bad"):
                 ev.append((op, t))
             for v in vecs:
@@ -376,7 +376,7 @@ class Driver:
                 if op == "w_badtype":
                     return guarded(tg, lambda: x.__setitem__(0, "s"))
             # ---------------- table writes
-            if op in ("tw_cell", "tw_row", "tw_col", "tw_colscalar", "tw_badrow", "tw_badcol"):
+            if op in ("tw_cell", "tw_row", "tw_col", "tw_colscalar", "tw_badrow", "tw_badcol", "tw_tailcols", "tw_tailscalar"):
                 t = ev[1]
                 T = sl[t].obj
                 if len(T) == 0 or not T._underlying:
@@ -386,6 +386,14 @@ class Driver:
                     return guarded(table_targets(t, [0]), lambda: T.__setitem__((0, 0), val()))
                 if op == "tw_row":
                     return guarded(table_targets(t), lambda: T.__setitem__(len(T) - 1, [val() for _ in range(ncol)]))
+                if op in ("tw_tailcols", "tw_tailscalar"):
+                    # several target columns that are NOT the leading ones (a row / a scalar over every column but the first)
+                    if ncol < 3:
+                        raise Disabled()
+                    tail = list(range(1, ncol))
+                    if op == "tw_tailcols":
+                        return guarded(table_targets(t, tail), lambda: T.__setitem__((0, tail), [val() for _ in tail]))
+                    return guarded(table_targets(t, tail), lambda: T.__setitem__((slice(None), tail), val()))
                 if op == "tw_col":
                     return guarded(table_targets(t, [ncol - 1]), lambda: T.__setitem__((slice(None), ncol - 1), [val() for _ in range(len(T))]))
                 if op == "tw_colscalar":
@@ -561,7 +569,7 @@ def check(ctx):
     explorer.bfs(drv, depth, agg)
     from mc import purity
     units = purity.plan(level_full_kinds=ctx.pick(("int", "int?", "float", "str", "date", "object"), tuple(purity.KINDS)))
-    for p in core.pmap(purity.unit_purity, units):
+    for p in core.pmap(purity.unit_purity, units) + core.pmap(purity.unit_nested_copies, [("nested-copies",)]):
         agg.merge(p)
     agg.notes["bound"] = (f"H: depth<={depth} events from each of 4 seed worlds, pool<={pool} objects; "
                           f"E: {len(units)} (operand kind x provenance form x second operand) scenarios x every derivation x every later write")
@@ -582,6 +590,9 @@ def coverage_goals(ctx, agg):
 
 def replay(rec):
     case = rec.get("case") or {}
+    if case.get("operand") == "vector of two vectors":
+        from mc import purity
+        return set(purity.unit_nested_copies(("nested-copies",)).viol)
     if "derivation" in case:
         from mc import purity
         return set(purity.unit_purity(("purity", case["operand"], case["form"], case.get("second_operand"), "full", case["derivation"])).viol)
